@@ -34,6 +34,9 @@ type simNet struct {
 	// when set, suspect/dead packets between survivors are dropped (own-evidence runs)
 	dropAccusations bool
 	sent, dropped   int64
+	// the sending goroutine returns from WriteTo this long after the packet left (a slow system call;
+	// the packet itself is not delayed)
+	slowReturn time.Duration
 }
 
 func newSimNet(r *rng) *simNet {
@@ -57,6 +60,8 @@ type simTransport struct {
 	down                atomic.Bool
 	afterShutdownWrites atomic.Int64
 	shut                atomic.Bool
+	// the crash took the route with it: sending to this address fails with a udp write error
+	unreachable atomic.Bool
 	// a hung process: its sockets stay open (connections are accepted and bytes swallowed) but nothing answers
 	hung      atomic.Bool
 	hungMu    sync.Mutex
@@ -110,7 +115,15 @@ func (t *simTransport) WriteTo(b []byte, addr string) (time.Time, error) {
 	}
 	lats := []time.Duration{sn.latency(), sn.latency()}
 	tap, tap2 := sn.tap, sn.tap2
+	slow := sn.slowReturn
 	sn.mu.Unlock()
+	if dst != nil && dst.unreachable.Load() {
+		atomic.AddInt64(&sn.dropped, 1)
+		return now, &net.OpError{Op: "write", Net: "udp", Err: fmt.Errorf("sendto %s: network is unreachable", addr)}
+	}
+	if slow > 0 {
+		defer time.Sleep(slow)
+	}
 	if tap != nil {
 		tap(t.addr, addr, b)
 	}
@@ -223,23 +236,24 @@ type simEvent struct {
 }
 
 type simNode struct {
-	name       string
-	m          *ml.Memberlist
-	tr         *simTransport
-	mu         sync.Mutex
-	events     []simEvent
-	inside     atomic.Int32
-	overlap    atomic.Int64
-	view       map[string]string // replay of the event log: name -> meta
-	badLog     []string          // event-log / Members() mismatches seen inside callbacks
-	t0         time.Time
-	meta       []byte
-	crashed    bool
-	left       bool
-	maxScore   int
-	delGot     int
-	ubq        [][]byte // pending user broadcasts (each handed out once)
-	onNodeMeta func() // one-shot hook run inside the NodeMeta callback (interleaving control)
+	name         string
+	m            *ml.Memberlist
+	tr           *simTransport
+	mu           sync.Mutex
+	events       []simEvent
+	inside       atomic.Int32
+	overlap      atomic.Int64
+	view         map[string]string // replay of the event log: name -> meta
+	badLog       []string          // event-log / Members() mismatches seen inside callbacks
+	t0           time.Time
+	meta         []byte
+	crashed      bool
+	writerOnSend bool
+	left         bool
+	maxScore     int
+	delGot       int
+	ubq          [][]byte // pending user broadcasts (each handed out once)
+	onNodeMeta   func()   // one-shot hook run inside the NodeMeta callback (interleaving control)
 }
 
 func (n *simNode) enter() {
@@ -294,9 +308,17 @@ func (n *simNode) NodeMeta(limit int) []byte {
 	}
 	return n.meta
 }
-func (n *simNode) NotifyMsg(b []byte)                         { n.mu.Lock(); n.delGot++; n.mu.Unlock() }
+func (n *simNode) NotifyMsg(b []byte) { n.mu.Lock(); n.delGot++; n.mu.Unlock() }
+
 // GetBroadcasts hands out pending user broadcasts, each once, as many as fit
 func (n *simNode) GetBroadcasts(overhead, limit int) [][]byte {
+	if n.writerOnSend && n.m != nil {
+		// "gossip arrives while this node is sending": every membership handler starts by taking
+		// the write lock; the sender then yields for a microsecond of virtual time
+		m := n.m
+		go ml.VerifWithNodeLock(m, func() {})
+		time.Sleep(time.Microsecond)
+	}
 	n.mu.Lock()
 	defer n.mu.Unlock()
 	var out [][]byte
@@ -317,8 +339,8 @@ func (n *simNode) queueBurst(k int) {
 	}
 	n.mu.Unlock()
 }
-func (n *simNode) LocalState(join bool) []byte                { return nil }
-func (n *simNode) MergeRemoteState(buf []byte, join bool)     {}
+func (n *simNode) LocalState(join bool) []byte            { return nil }
+func (n *simNode) MergeRemoteState(buf []byte, join bool) {}
 
 type simCfg struct {
 	mixedProto                                                        bool // nodes speak different (compatible) protocol versions
@@ -327,6 +349,11 @@ type simCfg struct {
 	tcpPings                                                          bool
 	key                                                               []byte
 	label                                                             string
+	proto                                                             uint8 // 0: library default
+	// a membership writer takes the node lock each time the library is about to send a packet
+	writerOnSend bool
+	// names of different lengths (n0, n1x, n2xx, ... from a per-cluster offset): packet sizes depend on them
+	padNames int
 }
 
 func defaultSimCfg() simCfg {
@@ -335,7 +362,11 @@ func defaultSimCfg() simCfg {
 }
 
 func (sn *simNet) newNode(i int, c simCfg, t0 time.Time) (*simNode, error) {
-	return sn.newNamedNode(i, fmt.Sprintf("n%d", i), c, t0)
+	name := fmt.Sprintf("n%d", i)
+	if c.padNames > 0 {
+		name += strings.Repeat("x", (i*5+c.padNames)%16)
+	}
+	return sn.newNamedNode(i, name, c, t0)
 }
 
 // newNamedNode creates a node at the address slot i under an arbitrary name (address take-over).
@@ -368,6 +399,10 @@ func (sn *simNet) newNamedNode(i int, name string, c simCfg, t0 time.Time) (*sim
 	if c.mixedProto {
 		conf.ProtocolVersion = uint8(2 + i%4)
 	}
+	if c.proto != 0 {
+		conf.ProtocolVersion = c.proto
+	}
+	n.writerOnSend = c.writerOnSend
 	if c.key != nil {
 		kr, err := ml.NewKeyring(nil, c.key)
 		if err != nil {
